@@ -23,6 +23,7 @@ type HarnessSpec struct {
 	Stubs        []string
 	Outside      []string
 	Assumptions  []string
+	smtlog       string
 }
 
 func (h *HarnessSpec) modDir() string { return filepath.Join("/repo", h.Mod) }
@@ -52,5 +53,38 @@ func init() {
 	register(PropSpec{ID: "C40", Harnesses: []HarnessSpec{
 		{Name: "keys", Pkg: "keys", Files: []string{"keys/c40_keys.go"}, Entry: "VerifC40Keys", Reach: []string{"value-fits", "encoded"},
 			Outside: []string{"keys longer than maxKeyLen bytes (only the last two bytes are read)", "value lengths above maxValLen"}},
+	}})
+}
+
+func init() {
+	register(PropSpec{ID: "C39", Harnesses: []HarnessSpec{
+		{Name: "prefix", Pkg: "state/metadata", Files: []string{"state_metadata/c39_prefix.go"}, Entry: "VerifC39", Reach: []string{"conflict", "no-conflict"},
+			Outside: []string{"prefixes longer than maxPrefixLen bytes", "more than maxVMPrefixes VM prefixes"}},
+	}})
+	register(PropSpec{ID: "C10", Harnesses: []HarnessSpec{
+		{Name: "timestamp", Pkg: "internal/validitywindow", Files: []string{"validitywindow/c10_timestamp.go"}, Entry: "VerifC10Timestamp", Reach: []string{"accepted", "rejected"},
+			Assumptions: []string{"block timestamp >= 0 and validity window >= 0 (documented domain; negative windows make ts+window wrap)"}},
+		{Name: "preexecute", Pkg: "chain", Files: []string{"chain/common.go", "chain/c10_preexecute.go"}, Entry: "VerifC10PreExecute", Reach: []string{"accepted", "rejected"},
+			Stubs:   []string{"actions/auth are harness types with symbolic activation ranges", "balance handler = harness handler with ample balance", "chain IDs symbolic in bytes 0 and 31"},
+			Outside: []string{"more than maxActions actions", "VM.Submit plumbing (PreExecutor is C07/C09)"}},
+	}})
+}
+
+func init() {
+	register(PropSpec{ID: "C04", Harnesses: []HarnessSpec{
+		{Name: "history", Pkg: "state/tstate", Files: []string{"tstate/c04_view.go"}, Entry: "VerifC04History", Reach: []string{"rollback", "published"},
+			Outside: []string{"more than maxOps operations on the view under test", "more than `keys` keys", "values longer than one chunk (C40)", "parent read errors other than not-found"}},
+	}})
+}
+
+func init() {
+	c13files := []string{"internal_fees/c13_price.go", "internal_fees/c13_roundtrip.go"}
+	register(PropSpec{ID: "C13", Harnesses: []HarnessSpec{
+		{Name: "exact", Pkg: "internal/fees", Files: c13files, Entry: "VerifC13Exact", IntMode: true,
+			Assumptions: []string{"target >= 1 and change denominator >= 1 (zero is a configuration error: division by zero)", "elapsed seconds < 2^40"},
+			Outside:     []string{"window slots other than the newest `symbolicWindowSlots` are zero"}},
+		{Name: "monotone", Pkg: "internal/fees", Files: c13files, Entry: "VerifC13Mono", IntMode: true,
+			Assumptions: []string{"target >= 1 and change denominator >= 1"}},
+		{Name: "roundtrip", Pkg: "internal/fees", Files: c13files, Entry: "VerifC13RoundTrip"},
 	}})
 }
